@@ -39,7 +39,7 @@ def gen_nats_reqs(rng, n, profiles, max_callers=6, steps=(25, 60)):
         touts, sizes, share, badop = [], [], [], []
         for j in range(k):
             if profile == "timeouts":
-                touts.append(rng.choice([15, 25, 40, 0]))
+                touts.append(rng.choice([15, 25, 40, 0, -1]))      # -1: SetTimeout(0), time.After(0) fires at once
             else:
                 touts.append(rng.choice([0, 0, 0, 20, 35]))
             x = rng.random()
